@@ -233,6 +233,13 @@ async fn run(multi_thread: bool) {
                 }
                 None => json!({"ok": false, "kind": "harness", "err": "no such db"}),
             },
+            "opimpl" => match sessions.get(&name) {
+                Some(s) => {
+                    let db = s.db.clone();
+                    crate::opimpl::opimpl(&db, &cmd).await
+                }
+                None => json!({"ok": false, "kind": "harness", "err": "no such db"}),
+            },
             "rule_names" => match sessions.get(&name) {
                 Some(s) => crate::planops::rule_names(&s.db),
                 None => json!({"ok": false, "kind": "harness", "err": "no such db"}),
